@@ -153,7 +153,7 @@ def run_shard(spec):
             out["samples"].append({"instance": label, "stats": dict(st)})
         else:
             stats = {}
-            dn = rng.choice([None, None, ("wr", "rd"), ("pix", "sync"), ("sync", "usb")])
+            dn = rng.choice([None, ("wr", "rd"), ("pix", "sync"), ("sync", "usb")])
             stats["domain-names:" + ("default" if dn is None else "+".join(dn))] = stats.get("domain-names:" + ("default" if dn is None else "+".join(dn)), 0) + 1
             ex = F.random_walk(maker(cls, width, depth, domains=dn), width, False, buffered, spec["events"], rng, stats,
                                drain_bound=BOUND[cls])
